@@ -499,8 +499,8 @@ def sd_term(num, den, mn, o):
     return "(%s, %s, %s, %s, %s)" % (POLICY[0], flit(num), flit(den), flit(mn), obsv(o))
 
 
-def report_mismatch(run, stream, what_fn, term, case, obs):
-    out = run.coq_eval(IMPORTS, "", "%s %s" % (what_fn, term)) if what_fn else ""
+def report_mismatch(run, stream, what_fn, term, case, obs, imports=None):
+    out = run.coq_eval(imports or IMPORTS, "", "%s %s" % (what_fn, term)) if what_fn else ""
     idx = [int(x) for x in __import__("re").findall(r"(\d+)%N", out)] if out else []
     names = [FIELDS[i] for i in idx if i < len(FIELDS)] if stream in ("baseline", "baseline_long", "hourly_stub", "hourly_fit") else idx
     run.corr_failures.append({"stream": stream, "case": case, "impl": obs, "model": {"fields_disagreeing": names, "raw": out[-400:]}})
@@ -1031,7 +1031,7 @@ def reporting_job(case):
     rdf = frame_of(rep, index=idx)
     out = {}
     rm = ReportingMetrics(baseline_metrics=bm, reporting_df=rdf, data_frequency=freq, confidence_level=conf, t_tail=tail)
-    for f in ("n", "observed_sum", "predicted_sum", "t_stat", "savings", "total_savings_uncertainty"):
+    for f in ("n", "observed_sum", "predicted_sum", "t_stat", "savings", "total_savings_uncertainty", "fsu", "predicted_data_point_unc"):
         try:
             with np.errstate(all="ignore"):
                 out[f] = canon(getattr(rm, f))
@@ -1068,9 +1068,26 @@ def reporting_job(case):
                                   "call": "ReportingMetrics"},
                                  "C16 ReportingMetrics.total_savings_uncertainty = %r, ASHRAE form gives %.12g (%s rows in zone %s from %s: M = %d local calendar months)" % (
                                      u, float(fsqrt(want_sq)), freq, tz, start, months)))
-    res["term"] = ("{| rc_den := %d%%positive; rc_rows := %s; rc_t_factor := (%s, %s); rc_cv := %s; rc_n := %s; rc_np := %s; rc_exp := %s |}" % (
-        rep["den"], coq_rows(rep["rows"]), flit(tst), flit(factor), obsv(cv), zlit(len(pairs)), obsv(npv),
-        coq_list([obsv(out[f]) for f in ("n", "observed_sum", "predicted_sum", "savings", "total_savings_uncertainty")])))
+        # fsu = U / savings, predicted_data_point_unc = U / sqrt(m)
+        if isinstance(u, float):
+            sv = sp - so
+            g = out["fsu"]
+            if sv != 0 and (not isinstance(g, float) or not close(Fr(g) ** 2 * sv * sv, Fr(u) ** 2) or (u != 0 and (g > 0) != ((u > 0) == (sv > 0)))):
+                res["fails"].append(({"defect": "statistic differs from the textbook formula", "field": "reporting.fsu", "call": "ReportingMetrics"},
+                                     "C16 ReportingMetrics.fsu = %r, total_savings_uncertainty / savings = %.12g" % (g, u / float(sv))))
+            g = out["predicted_data_point_unc"]
+            if not isinstance(g, float) or not close(Fr(g) ** 2 * len(rp), Fr(u) ** 2) or (u != 0 and (g > 0) != (u > 0)):
+                res["fails"].append(({"defect": "statistic differs from the textbook formula", "field": "reporting.predicted_data_point_unc",
+                                      "call": "ReportingMetrics"},
+                                     "C16 ReportingMetrics.predicted_data_point_unc = %r, total_savings_uncertainty / sqrt(m) = %.12g" % (
+                                         g, u / math.sqrt(len(rp)))))
+    # the model computes M, the frequency factor (constants read off the source), U, fsu and the point uncertainty itself
+    res["term"] = ("{| uc_den := %d%%positive; uc_rows := %s; uc_months := %s; uc_freq := %s; uc_t := %s; uc_cv := %s; uc_n := %s; uc_np := %s; "
+                   "uc_exp := %s |}" % (
+                       rep["den"], coq_rows(rep["rows"]), coq_list([zlit(t.month) for t in idx]), freq.capitalize(), flit(tst), obsv(cv),
+                       zlit(len(pairs)), obsv(npv),
+                       coq_list([obsv(out[f]) for f in ("n", "observed_sum", "predicted_sum", "savings", "total_savings_uncertainty", "fsu",
+                                                        "predicted_data_point_unc")])))
     return res
 
 
@@ -1091,12 +1108,12 @@ def stream_reporting(run, cases):
         if "term" in r:
             lst.append((r["term"], r["case"], out))
     if lst:
-        bad = run.coq_cases("reporting", IMPORTS, "", [t[0] for t in lst], "check_reporting", shard=40, timeout=600)
+        bad = run.coq_cases("reporting", RIMPORTS, "", [t[0] for t in lst], "check_uncertainty", shard=40, timeout=600)
         if bad is None:
             run.proof_ok = False
         else:
             for i in bad[:6]:
-                report_mismatch(run, "reporting", "reporting_bad", lst[i][0], lst[i][1], lst[i][2])
+                report_mismatch(run, "reporting", "uncertainty_bad", lst[i][0], lst[i][1], lst[i][2], imports=RIMPORTS)
 
 
 # ------------------------------------------------------------------ real fits
@@ -1268,6 +1285,7 @@ def stream_fits(run, hjobs=None, djobs=None, handles=None):
 
 # ------------------------------------------------------------------ utils.py helpers (Model/MetricsUtils.v)
 
+RIMPORTS = IMPORTS + "\nFrom V Require Import Generated.MetricsGen Model.MetricsReport Model.MetricsReportRun."
 UIMPORTS = IMPORTS + "\nFrom V Require Import Model.MetricsUtils Model.MetricsUtilsRun."
 _CLIP = [None]
 
@@ -1656,9 +1674,23 @@ def main():
         "correspondence is sampled: agreement is established on the cases run",
     ]
     run.cov["trusted_base"] += ["harness/c16.py (generators, adapters, canonicalisation, Textbook oracle in Python fractions)",
+                                "harness/translate_metrics.py (python ast over metrics.py / daily model.py: numeric literals and the operands of _safe_divide calls)",
                                 "pandas / numpy semantics (isfinite filter, var(ddof=0), quantile 'linear', corr, autocorr) re-specified in Model/Metrics.v"]
-    run.check_proofs("Properties/C16.v", ["Proofs/MetricsProofs.v", "Proofs/MetricsRealProofs.v", "Proofs/MetricsQuantileProofs.v", "Proofs/MetricsUtilsProofs.v"])
-    run.ensure_models(["Model/MetricsRun.v", "Model/MetricsUtilsRun.v", "Model/CasesLib.v"])
+    # step 0: the constants and the ratio table the source holds (fail-closed ast translator)
+    try:
+        import translate_metrics
+        gen_text = translate_metrics.generate(run)
+        run.cov["translated"] = [ln for ln in gen_text.split("\n") if ln.startswith("Definition gen_")][:40]
+    except Exception as e:  # noqa
+        run.proof_ok = False
+        run.proof_log += "translate_metrics failed: %s: %s" % (type(e).__name__, e)
+        run.log("TRANSLATOR FAILED: %s: %s" % (type(e).__name__, e))
+    ok0 = run.proof_ok
+    run.check_proofs("Properties/C16.v", ["Proofs/MetricsProofs.v", "Proofs/MetricsRealProofs.v", "Proofs/MetricsQuantileProofs.v",
+                                          "Proofs/MetricsUtilsProofs.v", "Proofs/MetricsReportProofs.v"],
+                     generated=["Generated/MetricsGen.v"])
+    run.proof_ok = run.proof_ok and ok0
+    run.ensure_models(["Model/MetricsRun.v", "Model/MetricsUtilsRun.v", "Model/MetricsReportRun.v", "Model/CasesLib.v"])
     pol, wit = probe_policy()
     run.cov["division_policy"] = {"modelled_as": pol, "witnesses": {"_safe_divide(-5,-1)": wit[0], "_safe_divide(-5,0.0005)": wit[1],
                                                                    "_safe_divide(0.005,0)": wit[2]}}
